@@ -133,7 +133,51 @@ def blake(nbytes):
     return h
 
 
+class _PrefixedSha256(object):
+    """A user-defined hash object: SHA-256 of a fixed prefix + the data.  It REPORTS name 'sha256' / digest_size 32 like the hashlib
+    one, but is a different function: code that re-creates "the same hash" from .name instead of calling the constructor it was
+    given computes something else."""
+    name = "sha256"
+    digest_size = 32
+    block_size = 64
+
+    def __init__(self, data=b"", _h=None):
+        self._h = _h if _h is not None else hashlib.sha256(b"vf-prefix|")
+        if data:
+            self._h.update(data)
+
+    def update(self, data):
+        self._h.update(data)
+
+    def digest(self):
+        return self._h.digest()
+
+    def hexdigest(self):
+        return self._h.hexdigest()
+
+    def copy(self):
+        return _PrefixedSha256(_h=self._h.copy())
+
+
+def _mk_param_hashes():
+    import functools
+    out = {
+        "blake2b_person": functools.partial(hashlib.blake2b, person=b"vf-person"),             # parametrised BLAKE2, default digest size
+        "blake2s_salt": functools.partial(hashlib.blake2s, salt=b"vfsalt"),
+        "blake2b_keyed32": functools.partial(hashlib.blake2b, key=b"vf-key", digest_size=32),
+        "prefixed_sha256": _PrefixedSha256,
+        "sha3_384": hashlib.sha3_384,
+        "lambda_sha1": lambda data=b"": hashlib.sha1(data),
+    }
+    return out
+
+
+PARAM_HASHES = _mk_param_hashes()
+
+
 def hash_by_name(name):
+    if name in PARAM_HASHES:
+        return PARAM_HASHES[name]
     if name.startswith("blake2b_"):
         return blake(int(name.split("_")[1]))
     return HASHES[name]
